@@ -850,7 +850,7 @@ def reindex_(
             "Currently does not support reindexing with object arrays of tuples. "
             "These occur when grouping by multi-indexed variables in xarray."
         )
-    if fill_value is xrdtypes.NA or isnull(fill_value):
+    if xrdtypes.NA == fill_value or isnull(fill_value):
         new_dtype, fill_value = xrdtypes.maybe_promote(array.dtype)
     else:
         new_dtype = array.dtype
@@ -1346,7 +1346,7 @@ def _finalize_results(
             if fill_value is None:
                 raise ValueError("Filling is required but fill_value is None.")
             # This allows us to match xarray's type promotion rules
-            if fill_value is xrdtypes.NA:
+            if xrdtypes.NA == fill_value:
                 new_dtype, fill_value = xrdtypes.maybe_promote(finalized[agg.name].dtype)
                 finalized[agg.name] = finalized[agg.name].astype(new_dtype)
             finalized[agg.name] = np.where(count_mask, fill_value, finalized[agg.name])
